@@ -309,6 +309,23 @@ pub fn build_module(log: Log, subs: SubRegistry, auto_sub: bool, hang: tokio::sy
 		.unwrap();
 	}
 	{
+		// a subscription whose handler takes a while before it accepts: [n]
+		let log = log.clone();
+		m.register_subscription("dsub", "dnotif", "dunsub", move |p, pending, _, ext| {
+			let log = log.clone();
+			async move {
+				log_invocation(&log, &ext, "dsub", &p);
+				tokio::time::sleep(Duration::from_millis(1 + rt::draw("dsub-ms", 60) as u64)).await;
+				let sink = pending.accept().await?;
+				rt::event("handler-done", "dsub accepted");
+				let n: u64 = p.one().unwrap_or(0);
+				let _ = sink.send(SubscriptionMessage::from(serde_json::value::to_raw_value(&n).unwrap())).await;
+				Ok::<(), jsonrpsee_core::SubscriptionError>(())
+			}
+		})
+		.unwrap();
+	}
+	{
 		let (log, subs) = (log.clone(), subs.clone());
 		m.register_subscription("sub", "notif", "unsub", move |p, pending, _, ext| {
 			let (log, subs) = (log.clone(), subs.clone());
